@@ -187,7 +187,7 @@ func TestDriverTwin(t *testing.T) {
 	side := NewSidecar("twin", seed,
 		"case = one block of the generated history (a destroy-heavy multi-call or a staking-precompile transfer() first, then 0-6 transactions of 17 kinds x 6 malformations x fee variants, "+
 			"feemarket minimum changed between blocks now and then) executed by k application instances started from identical genesis under different node-local conditions "+
-			"(minimum-gas-prices, evm.tracer none/access_list/struct/json/markdown, GOMAXPROCS, CheckTx traffic, wall-clock instant incl. one block straddling a vesting end time, Go map seeds); "+
+			"(minimum-gas-prices, evm.tracer none/access_list/struct/json/markdown, GOMAXPROCS, CheckTx traffic, restarts from the database, wall-clock instant incl. one block straddling a vesting end time, Go map seeds); "+
 			"non-trivial = at least one transaction executed (code 0) and (a destroy / transfer() special or >= 3 transactions); distinct by (special, kinds, malformations, result classes)")
 	cases := NewCases(dir, "From Evm Require Import CorrBase Destroy Nondet CorrNondet.", "nd_mismatches")
 	w := newWorld(t, k)
@@ -198,6 +198,17 @@ func TestDriverTwin(t *testing.T) {
 	for b := 0; b < n; b++ {
 		r := rng.Fork(uint64(b))
 		w.used = map[common.Address]bool{}
+		// process lifetime: some replicas are restarted now and then (a new application instance opened on the replica's
+		// database, configured through app options); only right after a commit, nothing is pending in the stores then
+		for _, rep := range w.reps {
+			if rep.idx%3 == 1 && b%37 == 17 {
+				require.NoError(t, TwinRestart(rep.c, rep.cfg.MinGas, rep.cfg.Tracer))
+				tr, err := TwinGetEvmTracer(rep.c.App)
+				require.NoError(t, err)
+				require.Equal(t, rep.cfg.Tracer, tr, "the restarted instance did not take evm.tracer from its app options")
+				side.Count("replica_restarted_from_db")
+			}
+		}
 		// a governance-like change of the feemarket minimum between blocks, identical on every replica
 		if r.Chance(12) {
 			choice := r.Intn(3)
